@@ -66,6 +66,22 @@ CHECKS["C15"] = dict(
         "shrink the domain once per layer with the same function. Necessary conditions of reuse and of acceptance of honest proofs with short "
         "remainders; the folding identity is not decided.",
    design_ref="DESIGN.md §3 C15")
+CHECKS["C02"] = dict(
+   technique="static analysis: MUST-GUARDS (OOD-consistency decision dominates acceptance), dependence of the verifier's constraint evaluation on every family, complementary coefficient partition, seed field coverage",
+   text="Static proof that acceptance is dominated by the OOD-consistency decision with operands originating in evaluate_constraints and in "
+        "the opened composition columns, that evaluate_constraints' result depends on every transition/boundary/Lagrange family with the drawn "
+        "coefficients at the drawn point, that coefficient lists are split into complementary main/auxiliary parts (no shared or skipped "
+        "randomness), and that the statement (context with every field, public inputs) is bound into the seed. Necessary conditions of soundness "
+        "for every AIR; divisor arithmetic (enforcement domains) and rejection for every invalid trace are not decided.",
+   design_ref="DESIGN.md §3 C03/C05/C02")
+CHECKS["C17"] = dict(
+   technique="static analysis: writer/reader agreement by data-flow dependence with callee summaries, control-dependence of the classification, unit consistency of domain-scale accessors",
+   text="Static proof that every boundary-constraint representation the prover's constructors write is read by the evaluator and reaches its "
+        "result, that the classification by polynomial length is a partition stored class by class, that the pre-evaluated representation "
+        "uses constraint-evaluation-domain units for both values and step offset, that every evaluation column is folded with its divisor, "
+        "that the full-fragment evaluator includes the auxiliary terms, and (shared with C02) that coefficients are partitioned and the "
+        "verifier's evaluation depends on every family. Numerical equality with the definition is not decided.",
+   design_ref="DESIGN.md §3 C17")
 NA = {
 }
 PENDING = "check under construction in this build round (see DESIGN.md §8)"
